@@ -73,9 +73,28 @@ def _is_enum_const(e, adt, variant):
     return e[0] == 'agg' and e[1] == adt and e[2] == variant
 
 
-def address_size_rule(ctx, facts, cfg, rid, pol=None):
-    """Every Ok path of parse_rr on which the record type is known to be A (AAAA) passes the `rdlen == 4` (16) test - path-sensitive,
-    so a guarded arm that falls through to the opaque default is seen.  Shared by C02.a and C03.g (the unchecked address readers)."""
+def hypothesis_run(facts, type_value, shared=None, budget_s=300):
+    """parse_rr analysed by E4 with rr_type() forced to return `type_value`: (call probes, probes at the `Ok(..)` constructions, error)"""
+    e4t = E4(facts, probes=[('DNSSector::increment_offset', PRR), ('Compress::check_compressed_name', PRR), ('DNSSector::check_compressed_name', PRR), ('DNSSector::check_uncompressed_name', PRR),
+                            ('DNSSector::parse_opt', PRR), ('<aggregate:std::result::Result>', PRR)],
+              force_ret={'DNSSector::rr_type': ('ok_int', type_value)}, budget_s=budget_s)
+    if shared:
+        e4t.an.summaries.update(shared)
+    try:
+        e4t.summarize(PRR)
+    except Exception as ex:  # noqa
+        return None, None, '%s: %s' % (type(ex).__name__, ex), e4t
+    ps = e4t.probes()
+    calls = [p for p in ps if p['fn'] == PRR and p['kind'] == 'call']
+    oks = [p for p in ps if p['fn'] == PRR and p['kind'] == 'aggregate' and p.get('stmt') is not None and p['stmt']['rv'].get('variant') == 'Ok']
+    return calls, oks, None, e4t
+
+
+def address_size_rule(ctx, facts, cfg, rid, pol=None, runs=None):
+    """Whatever the shape of the dispatch: with rr_type() == A (AAAA) every point of parse_rr that constructs the Ok result is reached
+    only with rdlen == 4 (16).  Decided by an E4 run of parse_rr under that hypothesis (separate arms, one merged arm choosing the
+    size by the type, a guarded arm falling through to the opaque default, helpers: all the same to it).
+    Shared by C02.a and C03.g (the unchecked address readers)."""
     pol = pol or policy()
     rf = facts.fns.get(PRR)
     if rf is None:
@@ -86,51 +105,26 @@ def address_size_rule(ctx, facts, cfg, rid, pol=None):
         ctx.instance(rid, '%s: %s' % (name, detail), ok=ok, site=site)
         if not ok:
             ctx.violation(rid, key, name.replace(' ', '-'), 'accept-path fact "%s" does not hold on every accepting path: %s' % (name, detail), site=site, config=cfg)
-    # ... on EVERY accepting path on which the type is known to be A / AAAA (not only inside "the" arm: a guarded arm that falls
-    # through to the opaque default would let other sizes in)
-    class _SizeAu(Automaton):
-        init = (None, False)
-
-        def on_edge(self_, q, f_, bi_, t_, value, target, env_):
-            arm, sized = q
-            e_ = F.expr(f_, F.single_defs(f_), t_['discr'])
-            if e_[0] != 'binop' or e_[1] not in ('Eq', 'Ne'):
-                return q
-            truth = (value != 0) if value is not None else all(v == 0 for v, _ in t_['targets'])
-            equal = truth if e_[1] == 'Eq' else not truth
-            rs_ = F.roots(f_, F.single_defs(f_), t_['discr'])
-            is_ty = any(r[0] == 'call' and r[1].endswith('DNSSector::rr_type') for r in rs_)
-            is_rd = any(r[0] == 'call' and r[1].endswith('DNSSector::rr_rdlen') for r in rs_)
-            if is_ty and not is_rd:
-                v_ = None
-                for side in (e_[2], e_[3]):
-                    x_ = side
-                    while x_[0] in ('cast',):
-                        x_ = x_[2]
-                    if x_[0] == 'call' and x_[2]:
-                        x_ = x_[2][0]
-                    if x_[0] == 'agg' and x_[1] == 'constants::Type':
-                        v_ = x_[2]
-                if v_ is not None:
-                    if equal:
-                        if arm is not None and arm != v_:
-                            return 'PRUNE'
-                        return (v_, sized)
-                    if arm == v_:
-                        return 'PRUNE'
-                return q
-            if is_rd and not is_ty and arm in ('A', 'AAAA'):
-                want_ = pol['a_len'] if arm == 'A' else pol['aaaa_len']
-                if any(side == ('const', want_) for side in (e_[2], e_[3])) and equal:
-                    return (arm, True)
-            return q
-    sflow = PathFlow(facts, _SizeAu())
-    sexits = sflow.summary(PRR, _SizeAu.init)
+    tv = {n: v for v, n in type_names(facts).items()}
+    rdl = locals_rooted_in(facts, rf, 'DNSSector::rr_rdlen')
+    shared_ = None
     for arm_ in ('A', 'AAAA'):
-        oks_ = [(q_, k_) for (q_, k_) in sexits if k_ == 'Ok' and q_[0] == arm_]
-        bad_ = [(q_, k_) for (q_, k_) in oks_ if not q_[1]]
-        _fact('%s record size on every accepting path' % arm_, bool(oks_) and not bad_, 'every Ok path of parse_rr on which the type is %s passes the `rdlen == %d` test (%d exit state(s), %d without the test)'
-             % (arm_, pol['a_len'] if arm_ == 'A' else pol['aaaa_len'], len(oks_), len(bad_)), PRR, rf['at'])
+        want_ = pol['a_len'] if arm_ == 'A' else pol['aaaa_len']
+        if runs is not None and arm_ in runs:
+            calls, oks, err = runs[arm_]
+        else:
+            calls, oks, err, e4t_ = hypothesis_run(facts, tv.get(arm_, -1), shared_)
+            shared_ = {k: S for k, S in e4t_.an.summaries.items() if k != PRR}     # callee summaries do not depend on the hypothesis
+        if err is not None or oks is None:
+            ctx.violation(rid, PRR, 'undecided: type ' + arm_, 'cannot analyse parse_rr under the hypothesis rr_type() == %s: %s' % (arm_, err), kind='undecided', config=cfg)
+            continue
+        bs = []
+        for p in oks:
+            rd = first_int(p, rdl)
+            bs.append(p['C'].bounds(rd.e) if rd is not None else None)
+        good = bool(bs) and all(b == (want_, want_) for b in bs)
+        _fact('%s record size on every accepting path' % arm_, good,
+              'with rr_type() == %s, parse_rr constructs its Ok result only with rdlen == %d (data length at the %d Ok construction(s) reached: %s)' % (arm_, want_, len(bs), sorted(set(bs), key=str)), PRR, rf['at'])
 
 
 def accept_rule(ctx, facts, cfg, pol):
@@ -221,20 +215,23 @@ def accept_rule(ctx, facts, cfg, pol):
     rdl = locals_rooted_in(facts, rf, 'DNSSector::rr_rdlen')
     tyl = locals_rooted_in(facts, rf, 'DNSSector::rr_type')
     fol = locals_rooted_in(facts, rf, 'check_compressed_name') + locals_rooted_in(facts, rf, 'check_uncompressed_name')
+    # one hypothesis run per record type: `rr_type()` is forced to return that type, so every probe reached in parse_rr belongs to
+    # it whatever the shape of the dispatch (separate arms, merged arms with the size chosen by the type, helpers, guards)
     by_arm = {}
-    for p in probes:
-        if p['fn'] != PRR or p['kind'] != 'call':
+    ok_exits = {}
+    tv = {n: v for v, n in tn.items()}
+    other = next(v for v in (16, 99, 250) if v not in tn or tn[v] not in ('A', 'AAAA', 'NS', 'CNAME', 'PTR', 'MX', 'SOA', 'DNAME', 'OPT'))
+    shared = {k: S for k, S in e4.an.summaries.items() if k not in (PRR, PARSE)}
+    main_summary_prr = e4.an.summaries.get(PRR)
+    runs = {}
+    for arm, val in [(n, tv[n]) for n in ('A', 'AAAA', 'NS', 'CNAME', 'PTR', 'MX', 'SOA', 'DNAME') if n in tv] + [('default', other)]:
+        calls_, oks_, err_, _e = hypothesis_run(facts, val, shared)
+        runs[arm] = (calls_, oks_, err_)
+        if err_ is not None:
+            ctx.violation(rid, PRR, 'undecided: type ' + arm, 'cannot analyse parse_rr under the hypothesis rr_type() == %s: %s' % (arm, err_), kind='undecided', config=cfg)
             continue
-        ty = first_int(p, tyl)
-        tb = p['C'].bounds(ty.e) if ty is not None else (None, None)
-        arm = 'default'
-        if tb[0] is not None and tb[1] is not None:
-            names = {tn.get(v) for v in range(tb[0], tb[1] + 1) if v in tn} if tb[1] - tb[0] < 64 else set()
-            if tb[0] == tb[1] and tb[0] in tn:
-                arm = tn[tb[0]]
-            elif names and names & {'NS', 'CNAME', 'PTR'}:
-                arm = 'NS|CNAME|PTR'
-        by_arm.setdefault(arm, []).append(p)
+        by_arm[arm] = calls_
+        ok_exits[arm] = oks_
     off_key = 'A0:%s.offset' % PRR
 
     def seq(arm):
@@ -270,7 +267,7 @@ def accept_rule(ctx, facts, cfg, pol):
         s = seq(arm)
         ok = len(s) == 1 and s[0]['callee'] == 'increment_offset' and s[0].get('rdlen') == (want, want) and s[0].get('arg') == (H + want, H + want)
         fact('%s record size' % arm, ok, '%s arm: %s' % (arm, [{k: v for k, v in e.items() if k != 'at'} for e in s]), PRR, s[0]['at'] if s else rf['at'])
-    address_size_rule(ctx, facts, cfg, rid, pol)
+    address_size_rule(ctx, facts, cfg, rid, pol, runs)
     s = seq('default')
     ok = len(s) == 1 and s[0]['callee'] == 'increment_offset' and s[0].get('arg-rdlen') == (H, H)
     fact('opaque record consumed exactly', ok, 'default arm: %s' % [{k: v for k, v in e.items() if k != 'at'} for e in s], PRR, s[0]['at'] if s else rf['at'])
@@ -291,7 +288,8 @@ def accept_rule(ctx, facts, cfg, pol):
         ok = ok and lo_seen is not None and lo_seen == min_rdlen
         fact(label, ok, '%s arm (smallest accepted data length %s, legal minimum %d): %s' % (arm, lo_seen, min_rdlen, [{k: v for k, v in e.items() if k != 'at'} for e in s]), PRR, s[0]['at'] if s else rf['at'])
 
-    name_arm('NS|CNAME|PTR', 'name data filled exactly (NS/CNAME/PTR)', 'check_compressed_name', 0, 0, 1)
+    for one_ in ('NS', 'CNAME', 'PTR'):
+        name_arm(one_, 'name data filled exactly (%s)' % one_, 'check_compressed_name', 0, 0, 1)
     name_arm('MX', 'MX: preference then name, filled exactly', 'check_compressed_name', pol['mx_name_at'], 0, 3)
     name_arm('SOA', 'SOA: two names then 20 bytes, filled exactly', 'check_compressed_name', 0, pol['soa_fixed'], pol['soa_fixed'] + 2)
     name_arm('DNAME', 'DNAME: pointer-free name, filled exactly', 'check_uncompressed_name', 0, 0, 1)
